@@ -18,6 +18,7 @@ struct stmt_rec
     int k;            // 1-based position of the statement within the current call
     bool readonly;    // sqlite3_stmt_readonly
     bool faulted;     // the shim failed this statement on request
+    bool is_rollback = false;
     int rc;           // last result of sqlite3_step
     std::string sql;  // statement text (unexpanded)
 };
